@@ -67,6 +67,8 @@ def total_sort_after(prog, f, b):
             if "jrsonnet_interner::IStr" in recv and "(" not in recv:
                 return "elements (IStr, ordered by content) sorted with %s" % short_path(fn)
             continue
+        if fn.endswith(("::sort_unstable_by_key", "::sort_by_key")) and "jrsonnet_evaluator::obj::FieldSortKey" in recv:
+            return "sorted by FieldSortKey (inheritance depth, declaration index): unique per field, independent of hash order"
         # comparator closure must end in the element's own order
         cl = None
         for a in t["args"]:
